@@ -243,8 +243,11 @@ class Ctx {
   // Record a violation of `clause` for the current case.
   void fail(const std::string& clause, const std::string& detail) { failKey(curKey, clause, detail); }
   void failKey(const std::string& key, const std::string& clause, const std::string& detail) {
+    // a known-finding matcher sees the case key followed by "|c=<clause>": it can (and should) name the symptom it covers,
+    // so that another kind of violation of the same case - a crash instead of a wrong value - is still reported
+    const std::string subject = key + "|c=" + clause;
     for (auto& k : known) {
-      if (std::regex_search(key, k.re)) {
+      if (std::regex_search(subject, k.re)) {
         k.hits++;
         if (verbose) printf("KNOWN %s :: %s\n", key.c_str(), k.id.c_str());
         return;
